@@ -24,6 +24,7 @@ def gen(tier, rng):
     for m in (False, True):
         yield nodegen.self_dial_script(rng, "self-dial-%d" % m, m)
     yield nodegen.translated_script(rng, "translated")
+    yield nodegen.advertised_script(rng, "advertised")
     # peer lists with arbitrary content from an established peer: the receiver itself under foreign addresses, known nodes under unknown addresses
     for i in range(6 if thorough else 2):
         yield nodegen.announce_script(rng, "announce-%d" % i, 120 if thorough else 50)
